@@ -347,6 +347,14 @@ func c10OpenDry() *gorm.DB {
 	return db
 }
 
+// c10ParseDB: a handle used ONLY to parse generated types (Statement.Parse never reaches the connection pool), so the
+// pool is closed at once — tens of thousands of these are opened per thorough run and must not pile up.
+func c10ParseDB() *gorm.DB {
+	db, _, sqlDB := OpenRec(&gorm.Config{NowFunc: fixedNowFunc, DryRun: true})
+	_ = sqlDB.Close()
+	return db
+}
+
 // ---- select / omit name generator -------------------------------------------------------------------
 
 func c10GenNames(rng *rand.Rand, sch *schema.Schema, max int, wild bool, r *Result, hist string) []string {
@@ -629,6 +637,10 @@ func c10Exec(db *gorm.DB, typ reflect.Type, c *c10Case, extra func(*gorm.DB) *go
 		return tx.Clauses(clause.OnConflict{UpdateAll: true}).Create(slice())
 	case "save_slice":
 		return tx.Save(slice())
+	case "updmap_slicemodel": // keys given through a SLICE model value: WHERE (key…) IN ((…),(…))
+		return tx.Model(slice()).Updates(c10MapOf(c.Map))
+	case "delete_slice":
+		return tx.Delete(slice())
 	case "delete": // key given through the deleted value itself
 		return tx.Delete(row(0).Interface())
 	case "delete_model": // key given through Model(&m) AND through the deleted value
@@ -726,7 +738,7 @@ func c10LeanOps(exp map[string]interface{}, c *c10Case) [][]interface{} {
 	}
 	switch c.Path {
 	case "upd_dto":
-		dsch, _, err := c10Parse(c10OpenDry(), *c.Dto)
+		dsch, _, err := c10Parse(c10ParseDB(), *c.Dto)
 		if err != nil {
 			panic(err)
 		}
